@@ -3,25 +3,25 @@
 import json, os
 HERE = os.path.dirname(os.path.abspath(__file__)); V = os.path.dirname(HERE)
 WORLDS = {
- "C01": ("E2E chaos link + E2E K-fault link (flip, reject)", "chaos: unack sizes 0..2L x closure x CRC-32/32C x check limit 1,2; ack limits 1, sizes 0,L [0..2L, + limits 2 for L]; null/modular without corruption, also K=2 with 3 segments; pre-existing longer destination files; K<=2 [3]"),
- "C02": ("E2E fault-free", "product of modes, closure, NAK mode, sizes 0..2L+1 [..3L+1], 4 destination shapes, checksum types, CRC flag, id widths 1-8, seq widths 1-4, segment lengths 1,2,3,5,derived, metadata-only, request-level mode/closure overrides, two consecutive transactions [5.7e3 configurations]"),
- "C03": ("E2E K-fault, limits K+1", "K<=1 sizes 0,1,L,L+1,2L+1; K=2 sizes 0,L,L+1 [all sizes, K=3 sizes 0,L,L+1]; both NAK modes, closure; existing destinations; two consecutive transactions sharing K<=2 faults"),
- "C04": ("SRC + DST, reference retry automata with their own clock", "limits N in 1..3 for EOF, Finished, NAK procedures [all 9 limit pairs]; NAKs at the sender during the EOF wait; cancellation exchange and abandonment"),
- "C05": ("DST + write model", "depth 5 [7], 16-event alphabet, both modes, NAK modes, 4 destination shapes, disposition, second transaction"),
- "C06": ("DST (ack) + interval model", "2-3 segments [up to 4], each PDU <=2 copies, max_packet_len 512 / 35 / 27"),
- "C07": ("SRC, configuration product + large-file prefix runs", "every size 0..3L+1 x L in 1..5; derived segment lengths (configured <,=,> derived); widths; checksum types; 36 prefix runs of a 2^32+5 byte file"),
- "C08": ("SRC (ack), NAK alphabet", "all pairs over offsets {0, seg, size-1, size, size+1, 2^32-1} + 2-request NAKs, <=2 NAKs per run [<=2], 5 put requests incl. one carrying every option list"),
+ "C01": ("E2E chaos link + E2E K-fault link (flip, reject)", "chaos: unack sizes 0..2L x closure x CRC-32/32C x check limit 1,2; ack limits 1, sizes 0,L [0..2L, + limits 2 for L]; null/modular without corruption, also K=2 with 3 segments; pre-existing longer destination files; K<=2 [3]; cancel request x counted faults; request-level overrides with one fault; receiver limit faults set to 'ignore'; destination directory missing (`nodir`); two transactions with stale PDUs handed to the busy handler"),
+ "C02": ("E2E fault-free", "product of modes, closure, NAK mode, sizes 0..2L+1 [..3L+1], 4 destination shapes, checksum types, CRC flag, id widths 1-8, seq widths 1-4, segment lengths 1,2,3,5,derived, metadata-only, request-level mode/closure overrides, two consecutive transactions [5.7e3 configurations]; a premature (refused) put request at any point; second transaction after the source file was rewritten"),
+ "C03": ("E2E K-fault, limits K+1", "K<=1 sizes 0,1,L,L+1,2L+1; K=2 sizes 0,L,L+1 [all sizes, K=3 sizes 0,L,L+1]; both NAK modes, closure; existing destinations; two consecutive transactions sharing K<=2 faults; multi-PDU NAK sequences (max_packet_len 27); acknowledged request over an unacknowledged MIB default; unacknowledged-with-closure first, faults in the acknowledged second transaction"),
+ "C04": ("SRC + DST, reference retry automata with their own clock", "limits N in 1..3 for EOF, Finished, NAK procedures [all 9 limit pairs]; NAKs at the sender during the EOF wait; cancellation exchange and abandonment; NAK and cancel request also after the EOF was acknowledged"),
+ "C05": ("DST + write model", "depth 5 [7], 16-event alphabet, both modes, NAK modes, 4 destination shapes, disposition, second transaction; PDUs with the large-file flag"),
+ "C06": ("DST (ack) + interval model", "2-3 segments [up to 4], each PDU <=2 copies, max_packet_len 512 / 35 / 27; large-file-flag PDUs (max_packet_len 43 / 59); Metadata announcing size 0 (unbounded file)"),
+ "C07": ("SRC, configuration product + large-file prefix runs", "every size 0..3L+1 x L in 1..5; derived segment lengths (configured <,=,> derived); widths; checksum types; 36 prefix runs of a 2^32+5 byte file; one failing filestore read at any point; Finished PDUs with another CRC flag / id width"),
+ "C08": ("SRC (ack), NAK alphabet", "all pairs over offsets {0, seg, size-1, size, size+1, 2^32-1} + 2-request NAKs, <=2 NAKs per run [<=2], 5 put requests incl. one carrying every option list; configured segment length larger than derived; two transactions on one handler"),
  "C09": ("CKSUM", "all 256 one-byte files; 5-letter alphabet to length 4 [6]; {00,FF} to length 9 [11]; every prefix x chunk x type"),
- "C10": ("SRC + DST wide alphabet, partial draining, late-state prefixes", "depth 5 [7] from idle, depth 8 [10] from 7 late states, 15-38 events"),
- "C11": ("HIST-DST, HIST-SRC, SIBLING", "history depth 5 / 7 [6 / 9], 7 + 9 follow-up scripts (gap, late metadata, cancel, silence, request overrides, re-sends), 8+8 step sibling scripts"),
- "C12": ("SRC + DST with cancel requests", "sizes 0, L-1, 2L+1, both modes, closure, disposition, CRC-32/modular, metadata-only, <=2 cancel requests and <=2 NAKs per run, EOF(cancel) before and during the check-limit wait"),
- "C13": ("DST (unack) + SRC, reference automaton with its own clock", "<=3 segments, check limits 1..3, closure, CRC-32/32C [62 configurations]"),
- "C14": ("SRC + DST per scenario x handler code, two fault-handler tables", "14 scenarios x {ignore, cancel, abandon}, 7-16 calls per run, second transactions; set_handler enumerated with a sibling table"),
- "C15": ("E2E (ff, K=1, cancel, two transactions)", "16 switch settings x 3 mode/closure; 6 message lists; K=1; cancel requests; second transaction with request-level overrides"),
- "C16": ("E2E pair native / in-memory", "C02-style subset incl. 4 destination shapes, K=1, cancel requests with disposition and modular checksum [K=2, drop+cancel]"),
+ "C10": ("SRC + DST wide alphabet, partial draining, late-state prefixes", "depth 5 [7] from idle, depth 8 [10] from 7 late states, 15-38 events; Metadata PDUs with unusual destination names / one name missing; destination shape `dir_dir`; invariants num_packets_ready == queue length, no queued PDU vanishes"),
+ "C11": ("HIST-DST, HIST-SRC, SIBLING", "history depth 5 / 7 [6 / 9], 7 + 9 follow-up scripts (gap, late metadata, cancel, silence, request overrides, re-sends), 8+8 step sibling scripts; histories ending by abandonment (overridden handler codes); follow-ups after the source file was rewritten"),
+ "C12": ("SRC + DST with cancel requests", "sizes 0, L-1, 2L+1, both modes, closure, disposition, CRC-32/modular, metadata-only, <=2 cancel requests and <=2 NAKs per run, EOF(cancel) before and during the check-limit wait; EOF(cancel) before the Metadata and while missing data is re-requested; second transaction at the sender; cancel request followed at once by a put request"),
+ "C13": ("DST (unack) + SRC, reference automaton with its own clock", "<=3 segments, check limits 1..3, closure, CRC-32/32C [62 configurations]; metadata-only request with closure at the sender"),
+ "C14": ("SRC + DST per scenario x handler code, two fault-handler tables", "14 scenarios x {ignore, cancel, abandon}, 7-16 calls per run, second transactions; set_handler enumerated with a sibling table; plus never-acknowledged Finished(cancel), destination `nodir` / `dir_dir`, disposition with nothing to delete"),
+ "C15": ("E2E (ff, K=1, cancel, two transactions)", "16 switch settings x 3 mode/closure; 6 message lists; K=1; cancel requests; second transaction with request-level overrides; cancel request + one fault; positive ACK limit 1; receiver world with PDUs of another transaction (depth 5 [7])"),
+ "C16": ("E2E pair native / in-memory", "C02-style subset incl. 4 destination shapes, K=1, cancel requests with disposition and modular checksum [K=2, drop+cancel]; uncreatable destinations, refused writes, handler codes abandon / ignore"),
  "C17": ("FS", "fixed point over paths a,b,d,d/a [+ d/b], 5 write / 5 read variants"),
- "C18": ("TRK", "fixed point, offsets 0..6 [0..8]"),
- "C19": ("SRC without initial request + PAIR", "36 mode/closure settings, 5 put variants at every step, <=2 transactions, <=3 [4] attempts; 2 handlers sharing a provider"),
+ "C18": ("TRK", "fixed point, offsets 0..6 [0..12]"),
+ "C19": ("SRC without initial request + PAIR", "36 mode/closure settings, 5 put variants at every step, <=2 transactions, <=3 [4] attempts; 2 handlers sharing a provider; whole-file NAK with configured vs derived segment length"),
  "C20": ("ROUTE (E2E + probe transitions, second ACK probe) + ACK-INACTIVE", "288 PDU shapes x every state of ff and single-drop graphs; 640 acknowledge_inactive_eof_pdu cases"),
 }
 def sci(n):
